@@ -1,12 +1,13 @@
 #!/bin/sh
-# Build the whole Coq development from files on disk (offline), after regenerating
-# the model parts that are translated from /repo's current source.
+# Build the Coq development of every CLAIMED property from files on disk (offline),
+# after regenerating the model parts that are translated from /repo's current source.
 set -e
 cd "$(dirname "$0")"
 /venv/bin/python tools/regen.py
 cd coq
-find . -name '*.v' | sed 's|^\./||' | sort > /tmp/verif_vfiles.$$
-( echo "-Q . Verif"; echo "-arg -w -arg -notation-overridden,-deprecated"; cat /tmp/verif_vfiles.$$ ) > _CoqProject
-rm -f /tmp/verif_vfiles.$$
+find . -name '*.v' | sed 's|^\./||' | sort > ../build/.vfiles.$$ 2>/dev/null || { mkdir -p ../build; find . -name '*.v' | sed 's|^\./||' | sort > ../build/.vfiles.$$; }
+( echo "-Q . Verif"; echo "-arg -w -arg -notation-overridden,-deprecated"; cat ../build/.vfiles.$$ ) > _CoqProject
+rm -f ../build/.vfiles.$$
 coq_makefile -f _CoqProject -o Makefile
-timeout 3000 make -j16
+TARGETS=$(/venv/bin/python ../tools/targets.py)
+timeout 3000 make -j16 $TARGETS
